@@ -123,6 +123,10 @@ class Script:
         if fill and not fail and self.sure_live(s):
             self.check(s)
             self.write_all(s, lo=(oldmin if (oldmin is not None and oldmin < n and self.rng.random() < 0.7) else 0))
+    def churn(self, n, count):
+        """count allocate/free pairs of a SMALL size (the harness runs them in a tight loop)"""
+        self.lines.append("churn %d %d" % (n, count))
+        self.nops += 1
     def getsize(self, s):
         self.lines.append("g %d" % s)
     def verify(self):
@@ -146,6 +150,9 @@ def gen_mixed(sc, n_ops, sizes, p_fail=0.0):
             sc.getsize(rng.choice(live)); sc.check(rng.choice(live))
         else:
             sc.verify()
+        if rng.random() < 0.04:
+            small = [x for x in sizes if x <= sc.cfg.maxsmall]
+            sc.churn(rng.choice(small), rng.choice([1, 2, 7, 300, 5000])); sc.verify()
         if rng.random() < 0.01:
             sc.lines.append("f %d" % (sc.fresh()))      # free(nullptr)
             sc.lines.append("r %d 0 ok" % (sc.fresh()))  # realloc(nullptr, 0)
@@ -205,6 +212,7 @@ def gen_fill(sc, max_objs=700):
                 allS.append(sc.alloc(size(), fill=False))
         groups, extra = [], allS
     sc.verify()
+    sc.churn(size(), rng.choice([1, 3, 1000, 70000])); sc.verify()
     # steady churn: must not map anything new (footprint)
     pool = [s for gq in groups for s in gq] + extra
     for _ in range(rng.choice([0, 20, 60])):
@@ -333,6 +341,11 @@ def corpus(cfgs):
         q = by_name(cfgs, nm)
         cs.append(("corpus-d02-trailing-partial-object-" + nm, [q.line, "a 0 32768 ok", "w 0 0 32768 1", "a 1 32768 ok", "a 2 32768 ok", "v", "f 0", "f 1", "f 2", "v"]))
         cs.append(("corpus-d02-class-16384-" + nm, [q.line] + ["a %d 16384 ok" % i for i in range(8)] + ["v"]))
+    # D42: num_reserved was incremented per allocation and never decremented (wrap-around after 2^32 pairs, see long_corpus);
+    # the structure dump shows the counter after a short churn
+    for q in cfgs:
+        cs.append(("corpus-d42-churn-" + q.name, [q.line, "a 0 64 ok", "churn 64 1", "v", "churn 64 1000", "v", "churn 9 3", "a 1 9 ok",
+                                                  "churn 9 2", "v", "f 0", "churn 64 5", "v", "f 1", "v"]))
     for q in cfgs:
         cs.append(("corpus-sizeclasses-" + q.name, [q.line, "sc"]))
         cs.append(("corpus-first-map-fails-" + q.name, [q.line, "a 0 24 fail", "a 1 24 ok", "a 2 %d fail" % (q.maxsmall + 1), "a 3 %d ok" % (q.maxsmall + 1),
@@ -344,6 +357,12 @@ def corpus(cfgs):
             cs.append(("corpus-fill-largest-class-" + q.name, [q.line] + ["a %d %d ok" % (i, big) for i in range(2 * per + 1)] + ["v"]
                        + ["f %d" % i for i in range(per, 2 * per)] + ["v", "f 0", "v", "a 900 %d ok" % big, "a 901 %d ok" % big, "v"]))
     return cs
+
+def long_corpus(cfgs):
+    """thorough tier only (about a minute in a -O2 build without sanitizers): 2^32 allocate/free pairs on one slab.
+    D42: before the fix the counter num_reserved wrapped to 0 and a valid free stopped in FRG_ASSERT."""
+    q = by_name(cfgs, "def_an")
+    return [("long-churn-d42", [q.line, "a 0 64 ok", "churn 64 4294967296", "v", "f 0", "v"])]
 
 def exhaustive_small(cfg, depth):
     """thorough tier: all op sequences up to `depth` over two sizes of the largest class / large path on 3 slots"""
